@@ -167,11 +167,17 @@ class GraphWorld:
             rp, rt = m['red']
             cs.append(z3.Implies(rp, rt != BV(i, 8)))                       # add_redirect: debug_assert_ne
         code_only = self.gkind == 1
+        js_media = ['JavaScript', 'Jsx', 'Mjs', 'Cjs', 'TypeScript', 'Mts', 'Cts', 'Dts', 'Dmts', 'Dcts', 'Tsx']
+        for i, m in enumerate(self.mods):                                     # parse_module_source_and_info: only these become JsModule
+            cs.append(z3.Or([m['mt'] == self.MT.index(x) for x in js_media]))
         for i, m in enumerate(self.mods):
             for d in m['deps']: cs.append(z3.Implies(code_only, d['type'][0] == 0))
             cs.append(z3.Implies(code_only, z3.Not(m['td']['p'])))
             if self.has_fc: cs.append(z3.Implies(code_only, m['fck'] == 0))
-        for imp in self.imports: cs.append(z3.Implies(code_only, z3.Not(imp['p'])))
+        for imp in self.imports:
+            cs.append(z3.Implies(code_only, z3.Not(imp['p'])))
+            for d in imp['deps']:                                            # GraphImport::new: type-only, static
+                cs.append(d['code'][0] == 0); cs.append(z3.Not(d['dyn']))
         for a in range(len(self.imports)):                                   # IndexMap keys are distinct
             for b in range(a + 1, len(self.imports)):
                 cs.append(z3.Implies(z3.And(self.imports[a]['p'], self.imports[b]['p']), self.imports[a]['ref'] != self.imports[b]['ref']))
@@ -297,7 +303,8 @@ def random_world(rng, N, D, I=0, DI=1, has_fc=False, MT=None, invariant=True):
         return None if k == 0 else ({'ok': rng.randrange(N)} if k == 1 else {'err': True})
     kind = rng.choice(['All', 'CodeOnly', 'TypesOnly'])
     co = kind == 'CodeOnly' and invariant
-    def dep(text):
+    def dep(text, imp=False):
+        if imp: return {'text': text, 'file_text': rng.random() < 0.2, 'code': None, 'type': res(), 'dynamic': False, 'deno_types': False}
         return {'text': text, 'file_text': rng.random() < 0.2, 'code': res(), 'type': None if co else res(), 'dynamic': rng.random() < 0.3, 'deno_types': rng.random() < 0.2}
     w = {'n': N, 'graph_kind': kind, 'schemes': [rng.choice(['https', 'http', 'file', 'https', 'data', 'npm']) for _ in range(N)],
          'roots': [i for i in range(N) if rng.random() < 0.5], 'slots': {}, 'redirects': {}, 'imports': [], 'has_node_specifier': rng.random() < 0.3}
@@ -313,7 +320,7 @@ def random_world(rng, N, D, I=0, DI=1, has_fc=False, MT=None, invariant=True):
             if k == 'external': e['was_asset_load'] = rng.random() < 0.5
             if k in ('js', 'wasm'): e['deps'] = [dep(i * D + d) for d in range(D) if rng.random() < 0.8]
             if k == 'js':
-                e['media_type'] = rng.choice(MT)
+                e['media_type'] = rng.choice(['JavaScript', 'Jsx', 'Mjs', 'Cjs', 'TypeScript', 'Mts', 'Cts', 'Dts', 'Dmts', 'Dcts', 'Tsx'])
                 if rng.random() < 0.3 and not co: e['types_dep'] = {'text': N * D + i, 'file_text': rng.random() < 0.2, 'res': res()}
                 if has_fc and not co and rng.random() < 0.4:
                     base = N * D + N + I * DI + i * D
@@ -326,5 +333,5 @@ def random_world(rng, N, D, I=0, DI=1, has_fc=False, MT=None, invariant=True):
         if r in used: break
         used.add(r)
         base = N * D + N + j * DI
-        w['imports'].append({'referrer': r, 'deps': [dep(base + d) for d in range(DI) if rng.random() < 0.8]})
+        w['imports'].append({'referrer': r, 'deps': [dep(base + d, True) for d in range(DI) if rng.random() < 0.8]})
     return w
